@@ -169,6 +169,8 @@ def _run_case(case, R, mon):
             m = 0.0     # total |x|^n mass is finite: natural absolute scale
         elif m == 0.0:
             m = 1e-3
+        else:
+            m = min(m, 1.0)     # far tails are judged on the scale of the mass of the jumps larger than 1 (closed forms cancel there)
         key = (m, n)
         if key not in scale_cache:
             v1, _ = Q.integrate_xn(density, m, math.inf, n, breaks, alpha)
